@@ -822,7 +822,7 @@ pub fn run(args: &Args) {
     }
     // pipeline level
     let dict = numeric_dict(&args.work);
-    let pres = ["", "京都", "に", "東京都に", "コーヒー"];
+    let pres = ["", "京都", "に", "東京都に", "コーヒー", "1円", "12,345円と"];
     let posts = ["", "に", "円", "京都", "カップ"];
     for (t, e) in DIRECTED_OK.iter() {
         pipeline_case(&mut sink, &dict, "京都", t, "円", Some(e), false, "directed_ok", false);
